@@ -74,7 +74,9 @@ CLAIMED.update({
              "inside its 15-byte block (comma_number_eq/_fits), qstrtest, qstr_is_ip4addr = four parts of one to three "
              "digits <= 255 (is_ip4addr_eq), qstr_is_email = the declarative isEmail (is_email_eq), qstrdupf / qstrcatf "
              "over the DYNAMIC_VSPRINTF doubling loop (dupf_eq, catf_eq: old content kept, exactly |out|+1 bytes written), "
-             "qstrunique's shape. Tied to the code by an exhaustive (strings "
+             "qstrunique's shape; qstrcpy / qstrncpy with source and destination in ONE block, any offsets in either "
+             "direction (strcpy_overlap_eq / strncpy_overlap_eq / *_bounded: the bytes at dst are the ORIGINAL source "
+             "bytes, clamped, then NUL; nothing outside [dst, dst+n] changes). Tied to the code by an exhaustive (strings "
              "of length <= 5 over the significant alphabet, all buffer sizes 1..n+2, all short (source, token, word) "
              "triples) plus random differential correspondence under ASan with exactly sized / guarded buffers.",
         note="trusted: Lean kernel, hand transcription of qstring.c (validated on explored inputs), strstr/strncmp modelled "
